@@ -124,7 +124,13 @@ fn find_fn<'a>(file: &'a syn::File, spec: &str) -> Vec<FoundFn<'a>> {
                         }
                         for ii in &im.items {
                             if let syn::ImplItem::Fn(f) = ii {
-                                if f.sig.ident == name {
+                                let wasm_only = f.attrs.iter().any(|a| {
+                                    a.path().is_ident("cfg") && {
+                                        let t = a.meta.to_token_stream().to_string();
+                                        t.contains("wasm32") && !t.contains("not")
+                                    }
+                                });
+                                if f.sig.ident == name && !wasm_only {
                                     out.push(FoundFn { sig: &f.sig, block: &f.block });
                                 }
                             }
@@ -149,7 +155,17 @@ fn find_fn<'a>(file: &'a syn::File, spec: &str) -> Vec<FoundFn<'a>> {
 }
 
 fn norm_ws(s: &str) -> String {
-    s.split_whitespace().collect::<Vec<_>>().join(" ")
+    // line comments are not part of the code that is compared
+    let mut t = String::new();
+    for l in s.lines() {
+        let code = match l.find("//") {
+            Some(i) => &l[..i],
+            None => l,
+        };
+        t.push_str(code);
+        t.push('\n');
+    }
+    t.split_whitespace().collect::<Vec<_>>().join(" ")
 }
 
 #[derive(Default, Clone)]
@@ -287,7 +303,8 @@ impl<'a> Rewriter<'a> {
         for (i, (orig, rep, _opt)) in self.spec.replace.iter().enumerate() {
             if *orig == n {
                 self.used_replace[i] += 1;
-                self.edits.push(Edit { start: s, end: e, text: rep.clone(), prio: 0 });
+                let rep = self.expand(rep);
+                self.edits.push(Edit { start: s, end: e, text: rep, prio: 0 });
                 self.skip_ranges.push((s, e));
                 return true;
             }
